@@ -11,9 +11,10 @@ tests=$(./_bv/tests/AVEL_TESTS --gtest_brief=1 2>&1 | tail -1)
 rm -rf _bv
 cmd=$(cat demo_cmd.txt)
 bash -c "$cmd" >/tmp/seed_demo_with.txt 2>&1; with_rc=$?
-git stash -q
+git diff -- include > /tmp/seed_verify_patch.$$.diff
+git checkout -q -- include
 bash -c "$cmd" >/tmp/seed_demo_without.txt 2>&1; without_rc=$?
-git stash pop -q
+git apply /tmp/seed_verify_patch.$$.diff; rm -f /tmp/seed_verify_patch.$$.diff
 rm -f demo_bin demo a.out
 python3 - "$d" "$prop" "$needs" "$caught" "$brc" "$tests" "$with_rc" "$without_rc" "$cmd" <<'PY'
 import json,sys
